@@ -2,9 +2,11 @@ package props
 
 import (
 	"bytes"
+	"context"
 	"errors"
 	"fmt"
 	"io"
+	"os"
 
 	"fgverif/gen"
 	"fgverif/impl"
@@ -32,6 +34,13 @@ func (c15) ExhaustiveScope(string) string {
 	return "fault positions: every k < len for containers of at most 2000 bytes (count in observations: containers-enumerated-at-every-position); containers themselves are sampled"
 }
 
+// timeoutErr looks like a deadline error (net.Error): Timeout() is true.
+type timeoutErr struct{}
+
+func (timeoutErr) Error() string   { return "c15: i/o timeout" }
+func (timeoutErr) Timeout() bool   { return true }
+func (timeoutErr) Temporary() bool { return true }
+
 type wrapErr struct{ inner error }
 
 func (w wrapErr) Error() string { return "wrapped: " + w.inner.Error() }
@@ -45,9 +54,18 @@ type failingSource struct {
 	E        error
 	withData bool
 	fails    int
+	// recover: after failing once the source carries on with these bytes (a
+	// deadline that was extended, a retried connection). A Reader that honours
+	// "later Reads keep returning the same error" never gets to see them.
+	recover []byte
 }
 
 func (f *failingSource) Read(p []byte) (int, error) {
+	if len(f.data) == 0 && f.fails > 0 && len(f.recover) > 0 {
+		n := copy(p, f.recover)
+		f.recover = f.recover[n:]
+		return n, nil
+	}
 	if len(f.data) == 0 {
 		f.fails++
 		return 0, f.E
@@ -90,6 +108,18 @@ func (c15) Run(c *mon.Ctx, i int) {
 		return
 	}
 	cont := vs.S
+	var zdict, openDict []byte
+	if kind == "zlib" && r.Chance(1, 3) {
+		// a stream that names a preset dictionary, opened with or without it
+		zdict = []byte("the dictionary this stream was written with, compress deflate window")
+		d = gen.Make(r, "text", r.Range(1, 3000))
+		cont = encodeStdZlib(d.B, r.Pick(1, 6), zdict)
+		openDict = zdict
+		if r.Bool() {
+			openDict = nil // then only the header and the dictionary id are read
+		}
+		c.Count("zlib-streams-with-preset-dictionary", 1)
+	}
 	if kind == "gzip" && r.Chance(1, 3) {
 		// a second member: faults between and inside members of a multistream file
 		extra := gen.Make(r, "text", r.Range(0, 2000))
@@ -111,16 +141,25 @@ func (c15) Run(c *mon.Ctx, i int) {
 			ks = append(ks, r.Intn(len(cont)))
 		}
 	}
+	if zdict != nil && openDict == nil {
+		// without the dictionary the Reader legitimately stops with ErrDictionary
+		// once it has read the 6 header bytes: only earlier faults are judged
+		ks = []int{0, 1, 2, 3, 4, 5}
+	}
 	base := errors.New("c15: injected source failure")
 	// including errors that merely wrap io.EOF / io.ErrUnexpectedEOF: they are not
 	// end-of-input and must come back as themselves
-	errVals := []error{base, io.ErrClosedPipe, wrapErr{base}, io.ErrNoProgress, wrapErr{io.EOF}, fmt.Errorf("read tcp: %w", io.ErrUnexpectedEOF), wrapErr{io.EOF}}
+	errVals := []error{base, io.ErrClosedPipe, wrapErr{base}, io.ErrNoProgress, wrapErr{io.EOF}, fmt.Errorf("read tcp: %w", io.ErrUnexpectedEOF), wrapErr{io.EOF},
+		os.ErrDeadlineExceeded, timeoutErr{}, context.DeadlineExceeded}
 	baseDesc := map[string]interface{}{"reader": kind, "container": vs.Desc, "data": d.Desc, "container_len": len(cont), "container_sha": mon.Sha(cont)}
 	for _, k := range ks {
 		E := errVals[r.Intn(len(errVals))]
 		withData := r.Bool() && k > 0
 		chunk := r.Pick(1, 7, 100, 4096, 1<<20)
 		src := &failingSource{data: append([]byte(nil), cont[:k]...), next: func() int { return chunk }, E: E, withData: withData}
+		if r.Bool() {
+			src.recover = append([]byte(nil), cont[k:]...)
+		}
 		var in io.Reader = src
 		tr := r.Intn(4)
 		switch tr {
@@ -149,7 +188,13 @@ func (c15) Run(c *mon.Ctx, i int) {
 				}
 				rd = z
 			case "zlib":
-				z, e := c.API.NewZlibReader(in)
+				var z impl.ZlibReader
+				var e error
+				if zdict != nil {
+					z, e = c.API.NewZlibReaderDict(in, openDict)
+				} else {
+					z, e = c.API.NewZlibReader(in)
+				}
 				if e != nil {
 					ferr = e
 					return
